@@ -113,3 +113,10 @@ def run(ctx):
              "register dump after the failure vs the model's error epilogue, then a common probe suite (globals, "
              "expressions, a failing probe's stack-trace length, sp, stack capacity, output log); non-trivial = "
              "calls/returns/errors; distinct by request")
+
+
+# ROUND 8: the Ext laws are theorems for a table of real builtins (lib/props/procinv_util.py, Lemmas/ListExtC07.lean)
+import procinv_util as _pv8
+MODULE = _pv8.listext_module("C07")
+THEOREMS = THEOREMS + [t for t in _pv8.LISTEXT_LAWS + _pv8.LISTEXT["C07"] if t not in THEOREMS]
+META["note"] = META["note"] + _pv8.LISTEXT_NOTE
